@@ -8,10 +8,11 @@
      params_of p                 path_parameters_spec_of (segments p)
      names l                     map snd l
      conflict s1 s2, nf          see the similar-paths theorems below *)
-From Coq Require Import List NArith Bool Permutation.
+From Coq Require Import List NArith Bool Permutation String.
 From JV.lib Require Import Bytes.
-From JV.model Require Import PathParams.
-From JV.proofs Require Import PathParamsProofs.
+From JV.gen Require Import DirectiveTables.
+From JV.model Require Import PathParams Core Catalog.
+From JV.proofs Require Import PathParamsProofs StaticChecksProofs PathBindingProofs.
 Import ListNotations.
 Open Scope N_scope.
 
@@ -162,3 +163,145 @@ Print Assumptions similar_order_independent.
 Theorem similar_total : forall st idx paths, exists r, register_paths st idx paths = GOk r.
 Proof. exact register_total_lemma. Qed.
 Print Assumptions similar_total.
+
+(* ------------------------------------------------------------------------------------------ *)
+(* binding: model/Catalog.v collect_paths_all, bind_all, path_vars_of, set_pathvars, build
+   (proofs/PathBindingProofs.v).  pnodes_all post = the nodes collectPaths visits (pre-order, MACRO
+   subtrees skipped) with ancestors and the flag "an earlier sibling is a Path"; declares pp post
+   prefix name = some Path directive of the project has (prefix, name) among the parameters of its
+   path and a property called name in its body (oracle pp); node_declares: the same for one node. *)
+Theorem collect_paths_all_is_the_fold :
+  forall (pp : coords -> option (list bytes)) ts acc,
+  collect_paths_all pp ts acc = cp_run pp (pnodes_all ts) acc.
+Proof. exact collect_paths_all_run. Qed.
+Print Assumptions collect_paths_all_is_the_fold.
+
+Theorem visited_nodes_are_nodes :
+  forall post x,
+  In x (pnodes_all post) ->
+  In (pn_tree x, pn_anc x) (preorder_all post).
+Proof. exact pnodes_all_preorder. Qed.
+Print Assumptions visited_nodes_are_nodes.
+
+(* what the Path directives contribute: one rawpv per Path node, in order (path_decl) *)
+Theorem collect_paths_all_spec :
+  forall (pp : coords -> option (list bytes)) post pvs,
+  collect_paths_all pp post [] = COk pvs ->
+  Forall2 (path_decl pp) (filter is_path_node (pnodes_all post)) pvs.
+Proof. exact collect_paths_all_spec. Qed.
+Print Assumptions collect_paths_all_spec.
+
+(* bind_all spelled out: a prefix is bound iff it was bound before or some rawpv declares it *)
+Theorem bind_all_spec :
+  forall pvs,
+  forall all r, Forall pv_wf pvs ->
+  bind_all pvs all = COk r ->
+  forall prefix, om_has beq r prefix = true <-> (om_has beq all prefix = true \/ exists v name, In v pvs /\ pv_declares v prefix name).
+Proof. exact bind_all_has. Qed.
+Print Assumptions bind_all_spec.
+
+(* binding_correct: for an accepted build, pathVariables of every HTTP interaction = the names of those {name} segments of its path (params_of, in path order) whose prefix some Path directive of the project declares *)
+Theorem binding_correct :
+  forall (pp : coords -> option (list bytes)) (bt : coords -> bytes) post c,
+  build pp bt [] post = COk c ->
+  exists bound : bytes -> bool, (forall prefix, bound prefix = true <-> exists name, declares pp post prefix name) /\ forall i h, In (i, IHttp h) (c_inters c) ->
+  hi_pathvars h = map snd (filter (fun x => bound (fst x)) (params_of (i_path i))).
+Proof. exact binding_correct_lemma. Qed.
+Print Assumptions binding_correct.
+
+(* the prefix ends in the {name} segment itself: the property bound at a prefix has the name of the segment *)
+Theorem prefix_determines_name :
+  forall p q prefix n m,
+  In (prefix, n) (params_of p) ->
+  In (prefix, m) (params_of q) ->
+  n = m.
+Proof. exact prefix_determines_name. Qed.
+Print Assumptions prefix_determines_name.
+
+Theorem no_declaration_no_pathvars :
+  forall (pp : coords -> option (list bytes)) (bt : coords -> bytes) post c,
+  (forall x, In x (preorder_all post) -> d_kind (ndir x) <> KPath) ->
+  build pp bt [] post = COk c ->
+  forall i h, In (i, IHttp h) (c_inters c) ->
+  hi_pathvars h = [].
+Proof. exact no_declaration_lemma. Qed.
+Print Assumptions no_declaration_no_pathvars.
+
+(* "Has unused parameters": a Path property matching no {name} segment of the path *)
+Theorem unmatched_property_rejected :
+  forall (pp : coords -> option (list bytes)) (bt : coords -> bytes) post x p bc props n,
+  In x (pnodes_all post) ->
+  d_kind (pn_dir x) = KPath ->
+  d_body (pn_dir x) = Some bc ->
+  pp bc = Some props ->
+  path_of (pn_dir x) (pn_anc x) = PathOk p ->
+  In n props ->
+  ~ In n (names (params_of p)) ->
+  not_ok (build pp bt [] post).
+Proof. exact unmatched_property_lemma. Qed.
+Print Assumptions unmatched_property_rejected.
+
+(* "has already been defined earlier": a parameter declared twice for one prefix *)
+Theorem duplicate_prefix_rejected :
+  forall (pp : coords -> option (list bytes)) (bt : coords -> bytes) post x y prefix n1 n2,
+  occurs_before x y (pnodes_all post) ->
+  node_declares pp x prefix n1 ->
+  node_declares pp y prefix n2 ->
+  not_ok (build pp bt [] post).
+Proof. exact duplicate_prefix_lemma. Qed.
+Print Assumptions duplicate_prefix_rejected.
+
+(* empty or repeated {name} (checked_rejects_empty / checked_rejects_dup: bad_path p <-> path_parameters_checked p is PEmptyParam or PDup) at URL and HTTP-method directives *)
+Theorem bad_path_of_url_or_method_rejected :
+  forall (pp : coords -> option (list bytes)) (bt : coords -> bytes) post x p,
+  In x (preorder_all post) ->
+  registers_path x p ->
+  bad_path p ->
+  not_ok (build pp bt [] post).
+Proof. exact bad_path_url_or_method_lemma. Qed.
+Print Assumptions bad_path_of_url_or_method_rejected.
+
+(* ... and at Path directives *)
+Theorem bad_path_of_path_directive_rejected :
+  forall (pp : coords -> option (list bytes)) (bt : coords -> bytes) post x p,
+  In x (pnodes_all post) ->
+  d_kind (pn_dir x) = KPath ->
+  path_of (pn_dir x) (pn_anc x) = PathOk p ->
+  bad_path p ->
+  not_ok (build pp bt [] post).
+Proof. exact bad_path_path_directive_lemma. Qed.
+Print Assumptions bad_path_of_path_directive_rejected.
+
+(* a Path body that is not a flat object (the oracle answers None) *)
+Theorem path_body_not_flat_rejected :
+  forall (pp : coords -> option (list bytes)) (bt : coords -> bytes) post x bc,
+  In x (pnodes_all post) ->
+  d_kind (pn_dir x) = KPath ->
+  d_body (pn_dir x) = Some bc ->
+  pp bc = None ->
+  not_ok (build pp bt [] post).
+Proof. exact path_body_not_flat_lemma. Qed.
+Print Assumptions path_body_not_flat_rejected.
+
+Theorem path_without_body_rejected :
+  forall (pp : coords -> option (list bytes)) (bt : coords -> bytes) post x,
+  In x (pnodes_all post) ->
+  d_kind (pn_dir x) = KPath ->
+  d_body (pn_dir x) = None ->
+  not_ok (build pp bt [] post).
+Proof. exact path_without_body_lemma. Qed.
+Print Assumptions path_without_body_rejected.
+
+(* bad_path in the vocabulary of checked_rejects_empty / checked_rejects_dup *)
+Theorem bad_path_iff : forall p,
+  bad_path p <-> (path_parameters_checked p = GOk PEmptyParam \/ exists n, path_parameters_checked p = GOk (PDup n)).
+Proof. exact bad_path_iff_lemma. Qed.
+Print Assumptions bad_path_iff.
+
+(* examples, by computation (proofs/PathBindingProofs.v, Module C13Examples) *)
+Theorem binding_example :
+  C13Examples.pathvars (C13Examples.go13 C13Examples.f1) =
+  [(bs "http GET /a/{id}"%string, [bs "id"%string]); (bs "http GET /a/{id}/b/{sub}"%string, [bs "id"%string; bs "sub"%string]);
+   (bs "http POST /a/{id}/c"%string, [bs "id"%string]); (bs "http GET /x/{q}"%string, [])].
+Proof. exact C13Examples.ex_binding. Qed.
+Print Assumptions binding_example.
